@@ -14,8 +14,8 @@ wt = tempfile.mkdtemp(prefix='vt-keep-'); os.rmdir(wt)
 def sh(cmd, **kw): return subprocess.run(cmd, capture_output=True, text=True, **kw)
 res = {}
 try:
-    r = sh(['git', '-C', '/repo', 'worktree', 'add', '--detach', wt, 'HEAD']); assert r.returncode == 0, r.stderr
-    head = sh(['git', '-C', '/repo', 'rev-parse', 'HEAD']).stdout.strip()
+    r = sh(['git', '-C', '/repo', 'worktree', 'add', '--detach', wt, os.environ.get('KEEP_BASE', 'HEAD')]); assert r.returncode == 0, r.stderr
+    head = sh(['git', '-C', '/repo', 'rev-parse', os.environ.get('KEEP_BASE', 'HEAD')]).stdout.strip()
     env = dict(os.environ, TALLY_SRC=os.path.join(wt, 'src'), PYTHONPATH=os.path.join(wt, 'src'), PYTHONDONTWRITEBYTECODE='1')
     r = sh(['/venv/bin/python', demo], env=env, cwd='/tmp', timeout=600); res['demo_clean_rc'] = r.returncode
     r = sh(['git', '-C', wt, 'apply', patch]); res['patch_applies'] = r.returncode == 0
